@@ -19,7 +19,7 @@ REPO = os.environ.get('VERIF_REPO', '/repo')
 sys.path.insert(0, os.path.join(VERIF, 'vp'))
 
 GUARD = 'LIBAST_VERIF'
-CAPS = {'quick': (90, 8), 'thorough': (400, 14)}       # (seconds, GB) per query
+CAPS = {'quick': (90, 3), 'thorough': (400, 12)}       # (seconds, GB) per query
 BACKENDS = {
     'cadical': ['--sat-solver', 'cadical'],
     'minisat': [],
@@ -53,7 +53,7 @@ class Family:
 
     def __init__(self, name, harness, units=(), stubs=('msgs_stub.c',), defines=(), debug=None,
                  unwind=8, unwindset=(), flags=(), backend='cadical', fallback=('kissat',),
-                 restrict=None, note='', cap=None, leak=False, loopspec=()):
+                 restrict=None, note='', cap=None, leak=False, loopspec=(), elem_restrict=None):
         self.name, self.harness = name, harness
         self.units = list(units)
         self.stubs = list(stubs)
@@ -66,6 +66,7 @@ class Family:
         self.cap = cap
         self.leak = leak
         self.loopspec = list(loopspec)
+        self.elem_restrict = elem_restrict
         self.obls = []
         self.gb = None
         self.build_error = None
@@ -170,31 +171,89 @@ def build_family(fam, workdir):
         resolve_loops(fam)
 
 
-def apply_restrict(fam, gb, fdir):
-    """fam.restrict = {(function, source-line-substring or None): [targets]}.  Call sites are
-    resolved from the goto program on every run (never by remembered ordinal) and all
-    restrictions are given to ONE goto-instrument invocation (DESIGN 3.4)."""
-    rc, out = sh(['goto-instrument', '--show-goto-functions', '--json-ui', gb], timeout=300)
-    # find labelled function pointer call sites: goto-instrument names them <fn>.function_pointer_call.<k>
-    rc, out = sh(['goto-instrument', '--label-function-pointer-call-sites', gb, os.path.join(fdir, 'lab.gb')], timeout=300)
-    if rc != 0:
-        raise RuntimeError('label-function-pointer-call-sites failed:\n' + out[-2000:])
-    rc, out = sh(['goto-instrument', '--show-goto-functions', os.path.join(fdir, 'lab.gb')], timeout=300)
-    sites = {}
-    for m in re.finditer(r'(\w+)\.function_pointer_call\.(\d+)', out):
-        sites.setdefault(m.group(1), set()).add(int(m.group(2)))
-    args = []
-    for fn, targets in fam.restrict.items():
-        if fn not in sites:
+SLOT_SUFFIX = {
+    'noo': ('_new', '_noo'), 'init': ('_init',), 'done': ('_done',), 'del': ('_del',), 'show': ('_show',), 'comp': ('_comp',),
+    'dup': ('_dup',), 'type': ('_type',),
+    'append': ('_append',), 'contains': ('_contains',), 'count': ('_count',), 'find': ('_find',), 'get': ('_get',),
+    'index': ('_index',), 'insert': ('_insert',), 'insert_at': ('_insert_at',), 'iterator': ('_iterator',),
+    'prepend': ('_prepend',), 'remove': ('_remove',), 'remove_at': ('_remove_at',), 'reverse': ('_reverse',),
+    'to_array': ('_to_array',), 'get_keys': ('_get_keys',), 'get_pairs': ('_get_pairs',), 'get_values': ('_get_values',),
+    'has_key': ('_has_key',), 'has_value': ('_has_value',), 'set': ('_set',), 'has_next': ('_has_next',), 'next': ('_next',),
+}
+
+
+def fp_call_sites(gb):
+    """(function, ordinal, slot) for every call through a function pointer, from the goto program."""
+    rc, out = sh(['goto-instrument', '--show-goto-functions', gb], timeout=300)
+    funcs, calls, cur, k = set(), [], None, 0
+    for line in out.splitlines():
+        m = re.match(r'^(\S+) /\* (\S+) \*/$', line)
+        if m:
+            cur, k = m.group(1), 0
+            funcs.add(cur)
             continue
-        for k in sorted(sites[fn]):
-            args += ['--restrict-function-pointer', '%s.function_pointer_call.%d/%s' % (fn, k, ','.join(targets))]
+        if 'CALL ' not in line or cur is None:
+            continue
+        callee = line.split('CALL ', 1)[1]
+        head = callee.split('(', 1)[0]
+        if ':=' in head:
+            callee = callee.split(':=', 1)[1].strip()
+        if not callee.startswith('*'):
+            continue
+        k += 1
+        # find the parenthesis that closes the callee expression "*( ... .slot)"
+        depth, end = 0, None
+        for i, ch in enumerate(callee):
+            if ch == '(':
+                depth += 1
+            elif ch == ')':
+                depth -= 1
+                if depth == 0:
+                    end = i
+                    break
+        slot = None
+        if end is not None:
+            m = re.search(r'\.(\w+)$', callee[:end])
+            if m:
+                slot = m.group(1)
+        calls.append((cur, k, slot))
+    return funcs, calls
+
+
+def apply_restrict(fam, gb, fdir):
+    """fam.restrict: dict slot -> explicit target list (overrides), or True for the naming-convention
+    defaults only.  Every call through a class-table slot is restricted to the functions in the binary
+    that can legitimately sit in that slot (by libast's naming convention: *_comp for comp, ...).  The
+    restriction is itself asserted by goto-instrument, so a call that leaves the set is reported, not
+    hidden.  Call sites are re-derived from the goto program on every run and all restrictions are
+    given to ONE goto-instrument invocation (DESIGN 3.4)."""
+    funcs, calls = fp_call_sites(gb)
+    over = fam.restrict if isinstance(fam.restrict, dict) else {}
+    args, nrest = [], 0
+    for fn, k, slot in calls:
+        er = getattr(fam, 'elem_restrict', None)
+        if slot in over:
+            targets = [t for t in over[slot] if t in funcs]
+        elif er and slot in ('comp', 'dup', 'del', 'show', 'type', 'init', 'done') and fn.startswith(er[0]):
+            # inside a container implementation the object-protocol slots are only ever invoked on
+            # elements, and the harness only stores elements of the listed classes
+            targets = sorted(f for f in funcs if f.endswith(SLOT_SUFFIX[slot]) and f.startswith(er[1]))
+        elif slot in SLOT_SUFFIX:
+            suf = SLOT_SUFFIX[slot]
+            targets = sorted(f for f in funcs if f.endswith(suf) and f.startswith(('spif_', 'vint_', 'vcls_')))
+        else:
+            continue
+        if not targets:
+            continue
+        args += ['--restrict-function-pointer', '%s.function_pointer_call.%d/%s' % (fn, k, ','.join(targets))]
+        nrest += 1
+    fam.fp_sites, fam.fp_restricted = len(calls), nrest
     if not args:
         return gb
     outgb = os.path.join(fdir, 'fam_r.gb')
-    rc, out = sh(['goto-instrument'] + args + [os.path.join(fdir, 'lab.gb'), outgb], timeout=300)
+    rc, out = sh(['goto-instrument'] + args + [gb, outgb], timeout=600)
     if rc != 0:
-        raise RuntimeError('restrict-function-pointer failed:\n' + out[-2000:])
+        raise RuntimeError('restrict-function-pointer failed:\n' + out[-3000:])
     return outgb
 
 
@@ -298,7 +357,60 @@ def trace_inputs(prop):
     return vals
 
 
+_children = set()
+
+
+def kill_group(p):
+    import signal
+    try:
+        os.killpg(os.getpgid(p.pid), signal.SIGKILL)
+    except Exception:
+        try:
+            p.kill()
+        except Exception:
+            pass
+
+
+def kill_all_children(*a):
+    for p in list(_children):
+        kill_group(p)
+    if a:
+        os._exit(130)
+
+
+class MemPool:
+    """Queries reserve their address-space cap from a global budget, so that the sum of the caps of
+    the queries in flight never exceeds what the machine has (the OOM killer otherwise takes the driver)."""
+
+    def __init__(self, total):
+        self.total, self.used, self.cv = total, 0, threading.Condition()
+
+    def acquire(self, n):
+        n = min(n, self.total)
+        with self.cv:
+            while self.used + n > self.total:
+                self.cv.wait()
+            self.used += n
+        return n
+
+    def release(self, n):
+        with self.cv:
+            self.used -= n
+            self.cv.notify_all()
+
+
+MEM = MemPool(int(os.environ.get('VERIF_MEM_GB', '52')))
+
+
 def run_query(o, tier, backend):
+    got = MEM.acquire((o.family.cap or CAPS[tier])[1])
+    try:
+        return run_query_(o, tier, backend)
+    finally:
+        MEM.release(got)
+
+
+def run_query_(o, tier, backend):
     fam = o.family
     secs, gb_cap = fam.cap or CAPS[tier]
     secs = o.kw.get('secs', secs)
@@ -306,6 +418,8 @@ def run_query(o, tier, backend):
     cmd = ['cbmc', fam.gb, '--function', o.entry, '--unwind', str(unwind)] + BASE_FLAGS
     for u in list(fam.unwindset) + list(o.kw.get('unwindset', ())):
         cmd += ['--unwindset', u]
+    if 'libc_models.c' in fam.stubs:
+        cmd += ['--unwindset', 'memmove.0:162', '--unwindset', 'memmove.1:162']
     spec = list(fam.loopspec) + list(o.kw.get('loopspec', ()))
     if spec:
         cmd += loopspec_args(fam, spec)
@@ -316,12 +430,22 @@ def run_query(o, tier, backend):
     t0 = time.time()
     wrapped = ['/usr/bin/time', '-f', 'VERIF_RSS_KB=%M', '-o', os.path.join(fam.fdir, o.entry + '.rss')] + cmd
     lim = 'ulimit -v %d; exec "$@"' % (gb_cap * 1024 * 1024)
+    p = subprocess.Popen(['bash', '-c', lim, 'bash'] + wrapped, stdout=subprocess.PIPE, stderr=subprocess.PIPE,
+                         text=True, start_new_session=True)
+    _children.add(p)
     try:
-        p = subprocess.run(['bash', '-c', lim, 'bash'] + wrapped, stdout=subprocess.PIPE, stderr=subprocess.PIPE,
-                           text=True, timeout=secs)
-        out, timed_out = p.stdout, False
-    except subprocess.TimeoutExpired as e:
+        out, err = p.communicate(timeout=secs)
+        timed_out = False
+        p.stderr_text = err
+    except subprocess.TimeoutExpired:
+        kill_group(p)
+        try:
+            p.communicate(timeout=10)
+        except Exception:
+            pass
         out, timed_out = '', True
+    finally:
+        _children.discard(p)
     wall = time.time() - t0
     rss = 0
     try:
@@ -338,7 +462,7 @@ def run_query(o, tier, backend):
         return 'inconclusive', 'timeout %ds (%s)' % (secs, backend)
     results, err = parse_cbmc_json(out)
     if results is None:
-        return 'inconclusive', '%s (%s, rc=%s) %s' % (err, backend, p.returncode, (p.stderr or '')[-300:])
+        return 'inconclusive', '%s (%s, rc=%s) %s' % (err, backend, p.returncode, (getattr(p, 'stderr_text', '') or '')[-300:])
     fails, witness, unknown = [], None, []
     fns = set()
     for r in results:
@@ -553,6 +677,10 @@ def main():
             for o in f.obls:
                 print(o.oid)
         return 0
+    import signal, atexit
+    signal.signal(signal.SIGTERM, kill_all_children)
+    signal.signal(signal.SIGINT, kill_all_children)
+    atexit.register(kill_all_children)
     known = load_known()
     workdir = tempfile.mkdtemp(prefix='verif_%s_' % pid)
     rc = 0
@@ -582,7 +710,7 @@ def main():
                 elif done % 50 == 0:
                     log('[%d/%d] ...' % (done, len(obls)))
         # classify failures
-        violations, knowns, replays = [], [], 0
+        violations, knowns, replays, unconfirmed, pending = [], [], 0, [], []
         for o in obls:
             if o.status != 'failed':
                 continue
@@ -596,15 +724,31 @@ def main():
             if replays < a.max_replays:
                 replays += 1
                 native = native_replay(o.family, o.entry, o.inputs, workdir, leak=o.family.leak)
-            only_unwind = all(l.startswith('unwind:') for l in o.labels)
-            if only_unwind and native.get('reproduced') is False:
-                o.status = 'inconclusive'
-                o.detail = 'unwinding bound reached (%s) and native run terminates: bound too small for this tree, no verdict' % ','.join(o.labels)
-                continue
-            o.status = 'violated'
             o.native = native
             o.replay_path = write_replay_file(pid, o, native)
+            if native.get('reproduced') is False:
+                # the solver's counterexample does not reproduce on the natively compiled code: either the
+                # bound was too small (unwinding assertion), or it rests on CBMC's model rather than on
+                # the code (symbolic-size memmove, pure pointer-arithmetic UB).  Not reported as a violation.
+                o.status = 'inconclusive'
+                o.detail = 'counterexample not reproduced natively (labels: %s); kept in %s' % (','.join(o.labels[:6]), o.replay_path)
+                unconfirmed.append(o)
+                continue
+            if native.get('reproduced') is None:
+                pending.append(o)
+                continue
+            o.status = 'violated'
             violations.append(o)
+        for o in pending:
+            # beyond the replay budget: counted as violations only if a replayed counterexample of this run reproduced
+            if violations:
+                o.status = 'violated'
+                violations.append(o)
+            else:
+                o.status = 'inconclusive'
+                o.detail = 'counterexample not replayed (budget) and none of the replayed ones reproduced'
+        if False:
+            pass
         printed = set()
         for o in knowns:
             key = (o.known.get('id') or o.known['what'])
